@@ -184,6 +184,13 @@ fn("searchsorted", {"a": ("L", "csorted"), "v": ("L", "c3")}, lambda f, a: f(a["
 fn("isclose", {"a": ("L", "v1"), "b": ("L", "v3")}, lambda f, a: f(a["a"], a["b"]), "bare")
 fn("allclose", {"a": ("L", "v1"), "b": ("L", "v1")}, lambda f, a: f(a["a"], a["b"]), "bare")
 fn("isclose", {"a": ("L", "v1"), "b": ("L", "v2"), "t": ("L", "s")}, lambda f, a: f(a["a"], a["b"], rtol=0, atol=a["t"]), "bare")
+# a BARE tolerance is documented to be read in the units of `a` as given: bare_like passes that argument as a plain
+# number spelled like the named argument (the reference stays NumPy on base-unit magnitudes)
+VALUES["s6"] = 6.0
+fn("isclose", {"a": ("L", "v1"), "b": ("L", "v2"), "t": ("L", "s")}, lambda f, a: f(a["a"], a["b"], rtol=0, atol=a["t"]), "bare", bare_like={"t": "a"})
+fn("allclose", {"a": ("L", "v1"), "b": ("L", "v2"), "t": ("L", "s6")}, lambda f, a: f(a["a"], a["b"], rtol=0, atol=a["t"]), "bare", bare_like={"t": "a"})
+fn("allclose", {"a": ("L", "v1"), "b": ("L", "v2"), "t": ("L", "s")}, lambda f, a: f(a["a"], a["b"], rtol=0, atol=a["t"]), "bare", bare_like={"t": "a"})
+fn("allclose", {"a": ("L", "v1"), "b": ("L", "v2"), "t": ("L", "s6")}, lambda f, a: f(a["a"], a["b"], rtol=0, atol=a["t"]), "bare")
 fn("isin", {"a": ("L", "c1"), "b": ("L", "c3")}, lambda f, a: f(a["a"], a["b"]), "bare")
 VALUES["d3"] = [0.5, 7.0, 2.0]
 fn("isin", {"a": ("D", "d3")}, lambda f, a: f(a["a"], [0.5, 7.0]), "bare")   # bare test elements are dimensionless numbers
